@@ -244,7 +244,7 @@ func str(g *hx.Rng) string {
 }
 
 func uri(g *hx.Rng) string {
-	switch g.Pick(6, 2, 2, 1) {
+	switch g.Pick(16, 1, 3, 1) {
 	case 0:
 		return uriOfLen(8+g.Intn(20), g)
 	case 1:
